@@ -29,11 +29,13 @@ FUNCTIONS_ENCODED = [
     'yaql.language.runner.call/choose_overload, specs.FunctionDefinition.map_args/get_delegate, yaqltypes checks',
 ]
 BOUNDS = {
-    'quick': 'strings len <= 3 over an unrestricted alphabet, start in [-len, len+2], length in [-2, len+2], counts in '
-             '[-1, 3], separators/chars len <= 2, lists len <= 3 of strings len <= 2, replacement mappings of <= 2 '
-             'entries; stub match objects with <= 2 numbered groups of which each may be named / not participating; '
+    'quick': 'receiver strings len <= 2 over an unrestricted alphabet, start in [-len, len+1], length in [-1, len+1], counts in '
+             '[-1, 2], other strings len <= 2 (len <= 1 in the 4-argument indexOf/lastIndexOf), lists len <= 2 of strings len <= 1, '
+             'replacement mappings of <= 2 entries; stub match objects with <= 2 numbered groups of which each may be named / not participating; '
              'concrete pattern family (numbered, named, optional groups) x symbolic subject len <= 3',
-    'thorough': 'same with strings len <= 4 and longer per-condition budgets'}
+    'thorough': 'receiver strings len <= 3 (len <= 4 for the comparison, concatenation, trim, norm, isEmpty, startsWith/endsWith, '
+                'repetition, len, toCharArray functions), start in [-len, len+2], length in [-2, len+2], counts in [-1, 3], '
+                'lists len <= 3 of strings len <= 2; two-entry replacement mappings keep the quick bounds; regex subjects len <= 4'}
 OUTSIDE = ['patterns as symbolic values (Python re is the trusted oracle, patterns come from a fixed concrete family)',
            'Unicode case mapping beyond what str.upper/str.lower do (they are the oracle)',
            'empty separator for split (ValueError of the builtin) and empty `old` for replace: undocumented',
@@ -62,22 +64,22 @@ def _ok(v):
 
 
 SPECS = {
-    'strings.gt@#operator_>': dict(h='h_ss', params='left right', cases=[('$s > $t', lambda s, t: _ok(M.m_cmp(s, t) > 0))]),
-    'strings.lt@#operator_<': dict(h='h_ss', params='left right', cases=[('$s < $t', lambda s, t: _ok(M.m_cmp(s, t) < 0))]),
-    'strings.gte@#operator_>=': dict(h='h_ss', params='left right', cases=[('$s >= $t', lambda s, t: _ok(M.m_cmp(s, t) >= 0))]),
-    'strings.lte@#operator_<=': dict(h='h_ss', params='left right', cases=[('$s <= $t', lambda s, t: _ok(M.m_cmp(s, t) <= 0))]),
-    'strings.in_@#operator_in': dict(h='h_ss', params='left right',
+    'strings.gt@#operator_>': dict(light=True, h='h_ss', params='left right', cases=[('$s > $t', lambda s, t: _ok(M.m_cmp(s, t) > 0))]),
+    'strings.lt@#operator_<': dict(light=True, h='h_ss', params='left right', cases=[('$s < $t', lambda s, t: _ok(M.m_cmp(s, t) < 0))]),
+    'strings.gte@#operator_>=': dict(light=True, h='h_ss', params='left right', cases=[('$s >= $t', lambda s, t: _ok(M.m_cmp(s, t) >= 0))]),
+    'strings.lte@#operator_<=': dict(light=True, h='h_ss', params='left right', cases=[('$s <= $t', lambda s, t: _ok(M.m_cmp(s, t) <= 0))]),
+    'strings.in_@#operator_in': dict(light=True, h='h_ss', params='left right',
                                      cases=[('$s in $t', lambda s, t: _ok(M.m_first(t, s, 0, len(t)) >= 0))]),
-    'strings.concat@concat': dict(h='h_sss', params='args', cases=[
+    'strings.concat@concat': dict(light=True, h='h_sss', params='args', cases=[
         ('concat($s, $t, $u)', lambda s, t, u: _ok(M.m_join('', [s, t, u]))),
         ('concat($s, $t)', lambda s, t, u: _ok(M.m_join('', [s, t]))),
         ('concat($u)', lambda s, t, u: _ok(u))]),
-    'strings.concat@#operator_+': dict(h='h_ss', params='args', cases=[('$s + $t', lambda s, t: _ok(M.m_join('', [s, t])))]),
+    'strings.concat@#operator_+': dict(light=True, h='h_ss', params='args', cases=[('$s + $t', lambda s, t: _ok(M.m_join('', [s, t])))]),
     'strings.to_upper@toUpper': dict(h='h_s', params='string', cases=[('$s.toUpper()', lambda s: _ok(M.m_upper(s)))]),
     'strings.to_lower@toLower': dict(h='h_s', params='string', cases=[('$s.toLower()', lambda s: _ok(M.m_lower(s)))]),
-    'strings.len_@len': dict(h='h_s', params='string', cases=[('$s.len()', lambda s: _ok(M.m_len(s))),
+    'strings.len_@len': dict(light=True, h='h_s', params='string', cases=[('$s.len()', lambda s: _ok(M.m_len(s))),
                                                               ('len($s)', lambda s: _ok(M.m_len(s)))]),
-    'strings.to_char_array@toCharArray': dict(h='h_s', params='string',
+    'strings.to_char_array@toCharArray': dict(light=True, h='h_s', params='string',
                                                cases=[('$s.toCharArray()', lambda s: _ok([c for c in s]))]),
     'strings.split@split': dict(h='h_son', params='string separator max_splits', cases=[
         ('$s.split($o, $n)', lambda s, o, n: _ok(M.m_split(s, o, n))),
@@ -90,19 +92,19 @@ SPECS = {
     'strings.join_@join': dict(h='h_ls', params='separator sequence str_delegate',
                                cases=[('$s.join($l)', lambda l, s: _ok(M.m_join(s, l)))]),
     'strings.str_@str': dict(h='h_v', params='value', kinds='nbis', cases=[('str($v)', lambda v: _ok(M.m_str(v)))]),
-    'strings.trim@trim': dict(h='h_so', params='string chars', cases=[
+    'strings.trim@trim': dict(light=True, h='h_so', params='string chars', cases=[
         ('$s.trim($o)', lambda s, o: _ok(M.m_trim(s, o, True, True))),
         ('$s.trim()', lambda s, o: _ok(M.m_trim(s, None, True, True)))]),
-    'strings.trim_left@trimLeft': dict(h='h_so', params='string chars', cases=[
+    'strings.trim_left@trimLeft': dict(light=True, h='h_so', params='string chars', cases=[
         ('$s.trimLeft($o)', lambda s, o: _ok(M.m_trim(s, o, True, False))),
         ('$s.trimLeft()', lambda s, o: _ok(M.m_trim(s, None, True, False)))]),
-    'strings.trim_right@trimRight': dict(h='h_so', params='string chars', cases=[
+    'strings.trim_right@trimRight': dict(light=True, h='h_so', params='string chars', cases=[
         ('$s.trimRight($o)', lambda s, o: _ok(M.m_trim(s, o, False, True))),
         ('$s.trimRight()', lambda s, o: _ok(M.m_trim(s, None, False, True)))]),
-    'strings.norm@norm': dict(h='h_oo', params='string chars', cases=[
+    'strings.norm@norm': dict(light=True, h='h_oo', params='string chars', cases=[
         ('$p.norm($o)', lambda p, o: _ok(M.m_norm(p, o))),
         ('$p.norm()', lambda p, o: _ok(M.m_norm(p, None)))]),
-    'strings.is_empty@isEmpty': dict(h='h_obo', params='string trim_spaces chars', cases=[
+    'strings.is_empty@isEmpty': dict(light=True, h='h_obo', params='string trim_spaces chars', cases=[
         ('$p.isEmpty($b, $o)', lambda p, b, o: _ok(M.m_is_empty(p, b, o))),
         ('$p.isEmpty()', lambda p, b, o: _ok(M.m_is_empty(p, True, None)))]),
     'strings.replace@replace': dict(h='h_sssn', params='string old new count', cases=[
@@ -111,9 +113,9 @@ SPECS = {
     'strings.replace_with_dict@replace': dict(h='h_dict', params='string str_func replacements count', conds='dict', cases=[
         ('$s.replace($d, $n)', lambda s, pairs, n: _ok(M.m_replace_pairs(s, pairs, n))),
         ('$s.replace($d)', lambda s, pairs, n: _ok(M.m_replace_pairs(s, pairs, -1)))]),
-    'strings.string_by_int@#operator_*': dict(h='h_sn', params='left right engine',
+    'strings.string_by_int@#operator_*': dict(light=True, h='h_sn', params='left right engine',
                                               cases=[('$s * $n', lambda s, n: _ok(M.m_repeat(s, n)))]),
-    'strings.int_by_string@#operator_*': dict(h='h_sn', params='left right engine',
+    'strings.int_by_string@#operator_*': dict(light=True, h='h_sn', params='left right engine',
                                               cases=[('$n * $s', lambda s, n: _ok(M.m_repeat(s, n)))]),
     'strings.substring@substring': dict(h='h_sij', params='string start length', cases=[
         ('$s.substring($i, $j)', lambda s, i, j: _ok(M.m_substring(s, i, j))),
@@ -131,11 +133,11 @@ SPECS = {
     'strings.characters@characters': dict(h='h_chars', params=' '.join(M.CHAR_FLAGS), cases=[]),
     'strings.is_string@isString': dict(h='h_v', params='arg', kinds='nbifs',
                                        cases=[('isString($v)', lambda v: _ok(isinstance(v, str)))]),
-    'strings.starts_with@startsWith': dict(h='h_sss', params='string prefixes', cases=[
+    'strings.starts_with@startsWith': dict(light=True, h='h_sss', params='string prefixes', cases=[
         ('$s.startsWith($t, $u)', lambda s, t, u: _ok(M.m_starts(s, t) or M.m_starts(s, u))),
         ('$s.startsWith($t)', lambda s, t, u: _ok(M.m_starts(s, t))),
         ('$s.startsWith()', lambda s, t, u: _ok(False))]),
-    'strings.ends_with@endsWith': dict(h='h_sss', params='string suffixes', cases=[
+    'strings.ends_with@endsWith': dict(light=True, h='h_sss', params='string suffixes', cases=[
         ('$s.endsWith($t, $u)', lambda s, t, u: _ok(M.m_ends(s, t) or M.m_ends(s, u))),
         ('$s.endsWith($t)', lambda s, t, u: _ok(M.m_ends(s, t))),
         ('$s.endsWith()', lambda s, t, u: _ok(False))]),
@@ -494,7 +496,7 @@ def registry():
 def conditions(tier, seed):
     quick = tier == 'quick'
     slen = 2 if quick else 3
-    t = 200 if quick else 900
+    t = 300 if quick else 900
     xr, cmax = (1, 2) if quick else (2, 3)
     quick_p = {'xr': xr, 'cmax': cmax, 'llen': 2 if quick else 3, 'elen': 1 if quick else 2, 'imax': 20 if quick else 300,
                'tlen': 1 if quick else 2, 'k2len': 1 if quick else 2}
@@ -509,14 +511,18 @@ def conditions(tier, seed):
                         'bounds': 'registered function without a model in props/c19.py: %s' % why})
             continue
         if spec.get('conds') == 'dict':
-            for case, two in ((0, False), (1, True)) if quick else ((0, False), (0, True), (1, True)):
+            # two entries with symbolic keys and values are expensive: they keep the small bounds in both tiers
+            small_p = dict(quick_p, llen=2, elen=1, tlen=1, k2len=1)
+            for case, two in ((0, False), (1, True)) if quick else ((0, False), (1, False), (0, True), (1, True)):
+                pp = small_p if two else quick_p
+                sl = 2 if two else slen
                 out.append({'name': '%s: %s [%d entr%s]' % (key, spec['cases'][case][0], 1 + two, 'ies' if two else 'y'),
                             'func': 'h_dict', 'timeout': 2 * t,
-                            'param': dict(quick_p, fn=key, slen=slen, case=case, two=two),
+                            'param': dict(pp, fn=key, slen=sl, case=case, two=two),
                             'bounds': 'by dispatch; $d an ordered Mapping object of %d entr%s with symbolic keys (len 1..2%s, distinct, '
                                       'may overlap) and values (len <= %d), receiver len <= %d, count in [-1, %d]'
-                                      % (1 + two, 'ies' if two else 'y', '; second key len 1' if quick else '',
-                                         quick_p['elen'], slen, cmax)})
+                                      % (1 + two, 'ies' if two else 'y', '; second key len 1' if pp['k2len'] == 1 else '',
+                                         pp['elen'], sl, cmax)})
             continue
         if spec.get('conds'):
             for c in spec['conds']:
